@@ -68,7 +68,7 @@ bool check_with_user(const std::string& question, std::ostream& out, Default def
     return is_truthy;
 }
 
-static std::string guess_filepath(const Patch& patch)
+static std::string guess_filepath(const Patch& patch, bool reverse_patch)
 {
     // POSIX specifies that after stripping using the '-p' option then the existence of both the old
     // and new files are tested. If both paths exist then patch should not be able to determine
@@ -94,6 +94,10 @@ static std::string guess_filepath(const Patch& patch)
 
     if (patch.operation == Operation::Add)
         return patch.new_file_path;
+
+    // Reversing the removal of a file is creating it again.
+    if (reverse_patch && patch.operation == Operation::Delete)
+        return patch.old_file_path;
 
     return {};
 }
@@ -500,7 +504,7 @@ int process_patch(const Options& options)
         if (options.verbose)
             out << "Hmm...  Looks like a " << to_string(info.format) << " diff to me...\n";
 
-        auto file_to_patch = options.file_to_patch.empty() ? guess_filepath(patch) : options.file_to_patch;
+        auto file_to_patch = options.file_to_patch.empty() ? guess_filepath(patch, options.reverse_patch) : options.file_to_patch;
 
         if (file_to_patch.empty()) {
             out << "can't find file to patch at input line " << parser.line_number()
@@ -556,7 +560,8 @@ int process_patch(const Options& options)
         File input_file;
         // NOTE: the file is only read from here, opening it for writing as well would needlessly fail for read-only files.
         input_file.open(file_to_patch, (mode & ~std::ios_base::out) | std::ios_base::in);
-        if (!input_file && (errno != ENOENT || patch.operation != Operation::Add))
+        const bool is_creating_file = patch.operation == Operation::Add || (options.reverse_patch && patch.operation == Operation::Delete);
+        if (!input_file && (errno != ENOENT || !is_creating_file))
             throw std::system_error(errno, std::generic_category(), "Unable to open input file " + file_to_patch);
 
         const auto input_lines = file_as_lines(input_file);
